@@ -96,8 +96,20 @@ def _size(spec, case):
     return len(json.dumps(spec.describe(case), default=str))
 
 
+def _limit_memory():
+    """A change to the code under test can make a case allocate without bound; the worker then
+    gets MemoryError instead of taking the host down (8 GiB of address space per process)."""
+    try:
+        import resource
+        lim = int(os.environ.get('VERIF_WORKER_AS_GIB', '8')) << 30
+        resource.setrlimit(resource.RLIMIT_AS, (lim, lim))
+    except Exception:
+        pass
+
+
 def _worker(args):
     pid, tier, w, seedval, n, target = args
+    _limit_memory()
     try:
         spec = _load(pid)
         hypothesis, HealthCheck, Phase, given, seed, settings = _hyp()
